@@ -379,7 +379,8 @@ def root_local(body, operand, max_hops=12):
             if "ref" in rv:
                 l = rv["ref"]["l"]
                 continue
-            if "use" in rv and ("copy" in rv["use"] or "move" in rv["use"]):
+            if "use" in rv and ("copy" in rv["use"] or "move" in rv["use"]) and body.lname(l) is None:
+                # only unnamed temporaries are looked through: a named user variable owns its storage
                 pl = rv["use"].get("copy") or rv["use"].get("move")
                 if not [x for x in pl["p"] if x != "*"]:
                     l = pl["l"]
